@@ -1,5 +1,15 @@
+import re
 import typing
 from lbry.dht.error import DecodeError
+
+_INT_RE = re.compile(rb'0|-?[1-9][0-9]*')
+_LEN_RE = re.compile(rb'0|[1-9][0-9]*')
+
+
+def _strict_int(raw: bytes, pattern) -> int:
+    if not pattern.fullmatch(raw):
+        raise DecodeError(f"invalid bencode integer: {raw[:20]!r}")
+    return int(raw)
 
 
 def _bencode(data: typing.Union[int, bytes, bytearray, str, list, tuple, dict]) -> bytes:
@@ -29,7 +39,7 @@ def _bencode(data: typing.Union[int, bytes, bytearray, str, list, tuple, dict]) 
 def _bdecode(data: bytes, start_index: int = 0) -> typing.Tuple[typing.Union[int, bytes, list, tuple, dict], int]:
     if data[start_index] == ord('i'):
         end_pos = data[start_index:].find(b'e') + start_index
-        return int(data[start_index + 1:end_pos]), end_pos + 1
+        return _strict_int(data[start_index + 1:end_pos], _INT_RE), end_pos + 1
     elif data[start_index] == ord('l'):
         start_index += 1
         decoded_list = []
@@ -48,7 +58,7 @@ def _bdecode(data: bytes, start_index: int = 0) -> typing.Tuple[typing.Union[int
     else:
         split_pos = data[start_index:].find(b':') + start_index
         try:
-            length = int(data[start_index:split_pos])
+            length = _strict_int(data[start_index:split_pos], _LEN_RE)
         except (ValueError, TypeError) as err:
             raise DecodeError(err)
         if length < 0:
@@ -70,7 +80,9 @@ def bdecode(data: bytes, allow_non_dict_return: typing.Optional[bool] = False) -
     if len(data) == 0:
         raise DecodeError('Cannot decode empty string')
     try:
-        result = _bdecode(data)[0]
+        result, end = _bdecode(data)
+        if end != len(data):
+            raise ValueError('bytes after the bencoded value or a truncated string')
         if not allow_non_dict_return and not isinstance(result, dict):
             raise ValueError(f'expected dict, got {type(result)}')
         return result
